@@ -406,4 +406,29 @@ example : parseHeader Codec.pinned
     some (sampleHeader, []) := by decide
 example : tornProgram 0xFFFFFFFF 0x44444444 0x0000FFFF = 0x4444FFFF := by decide
 
+/-! ## sequence numbers around the reserved value
+
+`SequenceNumber::next` (model: `seqNext`) never produces the reserved erased code: the successor of every legal sequence
+number is again a legal 32-bit sequence number that the codec parses, so a header carrying it round-trips; the successor
+of `0xFFFFFFFE` is `0` (the reserved `0xFFFFFFFF` is skipped). The correspondence suite `d3` observes the (private)
+function through the sequence numbers `start_update` writes (`alloc s`). -/
+
+theorem seqNext_legal (s : Nat) (h : s < 2 ^ 32) (hs : s ≠ 0xFFFFFFFF) :
+    seqNext s < 2 ^ 32 ∧ seqNext s ≠ 0xFFFFFFFF ∧ parseSeq Codec.new (seqNext s) = some (seqNext s) := by
+  have hinv : Codec.new.seqInvalid = 0xFFFFFFFF := rfl
+  have h1 : seqNext s < 2 ^ 32 ∧ seqNext s ≠ 0xFFFFFFFF := by
+    unfold seqNext
+    split <;> omega
+  refine ⟨h1.1, h1.2, ?_⟩
+  unfold parseSeq
+  rw [hinv, if_neg h1.2]
+
+theorem seqNext_skips_reserved : seqNext 0xFFFFFFFE = 0 ∧ seqNext 0xFFFFFFFD = 0xFFFFFFFE ∧ seqNext 0 = 1 := by decide
+
+/-- twice in a row (the two headers of one `start_update`) -/
+theorem seqNext_twice_legal (s : Nat) (h : s < 2 ^ 32) (hs : s ≠ 0xFFFFFFFF) :
+    parseSeq Codec.new (seqNext (seqNext s)) = some (seqNext (seqNext s)) :=
+  let ⟨a, b, _⟩ := seqNext_legal s h hs
+  (seqNext_legal _ a b).2.2
+
 end Fuota.C11
